@@ -92,6 +92,11 @@ def gen_cases(rng, names, stable, n_single, n_mixed, cls, cum_every=3, tmax=30, 
         cont = {c: float(10 ** rng.uniform(*scale)).hex() for c in chosen}
         tunit = rng.choice(U.TIME)
         cases.append({"cls": cls, "contents": cont, "unit": unit, "t": float(10 ** rng.uniform(-9, 12)).hex(), "tunit": tunit})
+    # zero time: nothing has decayed yet - the nuclide set, the stable / radioactive split of cumulative decays and the amounts
+    for _ in range(2):
+        ks = rng.sample(names, min(3, len(names)))
+        cases.append({"cls": cls, "contents": {k: float(round(10 ** rng.uniform(3, 12), 2)).hex() for k in ks}, "unit": "num",
+                      "t": float(0.0).hex(), "tunit": rng.choice(["s", "y", "h"]), "kind": "zero-time"})
     # tail cases: the decay time is chosen so that the parent's remaining amount N0 * 2^(-t/T) has a target
     # magnitude spread uniformly (in log) over the whole range of normal doubles
     import numpy as np, os
@@ -164,7 +169,7 @@ def gen_cases(rng, names, stable, n_single, n_mixed, cls, cum_every=3, tmax=30, 
             else:
                 c["ds"] = ds
     for i, c in enumerate(cases):
-        c["cum"] = (i % cum_every == 0) or c.get("kind") in ("history", "closed")
+        c["cum"] = (i % cum_every == 0) or c.get("kind") in ("history", "closed", "zero-time")
         c["zero"] = (i % 10 == 0) and "pre" not in c
     return cases
 
